@@ -9,7 +9,7 @@ ASSUME = [
     'initial states are right-orthonormal and normalised (the algorithms of the cited reference start from a right-canonical state; the library\'s own caller orthonormalises first); Krylov needs a normalised state',
     'Hermitian islands with exact integer cores, dyadic steps with |h H| <= 1; exactness tolerance 1e-8, conservation 1e-9; reference scipy.linalg.expm of the exact dense H (numeric evaluator)',
     'tdvp2site / tdvp are called with threshold 0 and a rank cap above the maximal ranks',
-    'hybrid tdvp: known finding F15 (last bond saturated -> unset left environment); the sweep protocol of all drivers is model-checked by TLC (spec/Sweep.tla) in this check',
+    'hybrid tdvp: known finding F16 (last bond saturated -> unset left environment); the sweep protocol of all drivers is model-checked by TLC (spec/Sweep.tla) and the helper calls of the real drivers (als, mals, evp, tdvp1, tdvp2, hybrid, arr; helpers wrapped from the harness under SCIKIT_TT_VERIF=1) are recorded and validated against spec/Trace_Sweep.tla in this check',
 ]
 RULE = ('TLC enumerates mode sizes, operator ranks, definite/indefinite, real/complex and every admissible rank profile of '
         'the initial state and builds exact cores; the replay runs tdvp1site, tdvp2site, tdvp and krylov and checks list '
@@ -151,6 +151,26 @@ def post_hook(artifacts, rep, tier):
                                   dict(kind='sweep_model', driver=drv, D=D))
                 if not viol and 'No error has been found' not in r['stdout']:
                     raise RuntimeError('Sweep model check failed for %s D=%d' % (drv, D))
+    # ---- code -> spec: recorded helper-call traces of the real drivers against the protocol (spec/Trace_Sweep.tla)
+    from .. import sweeptrace, common
+    common.import_repo()
+    traces = sweeptrace.record_all(common.seed())
+    verdicts, r = sweeptrace.validate(traces)
+    out['states'] += r['distinct']
+    out['transitions'] += r['generated']
+    acc = 0
+    for k, t in enumerate(traces):
+        v = verdicts.get(k + 1)
+        if v is None and t['raised'] is None:
+            acc += 1
+            continue
+        clause = ':'.join((v or 'raised').split(':')[1:]) if v else 'raised'
+        rep.violation('sweeptrace:%s:%s' % (t['driver'], clause),
+                      'helper-call trace of driver %s (order %d) rejected by spec/Trace_Sweep.tla: %s; raised: %s; last events %r' % (
+                          t['driver'], t['D'], v, t['raised'], t['events'][-3:]), dict(kind='sweep_trace', trace=t))
+    out['traces_validated_against_impl'] += acc
+    out['sweep_traces_recorded'] = len(traces)
+    out['sweep_trace_events'] = sum(len(t['events']) for t in traces)
     return out
 
 
